@@ -95,7 +95,7 @@ def run(deck_text, options=(), name='deck', encoding=None, keep=False):
     Returns a Result. `options` never contains the input/output paths.
     """
     install()
-    from t4_geom_convert.main import conversion, parse_args
+    import t4_geom_convert.main as t4main
     d = scratch_dir()
     ipath = os.path.join(d, name + '.imcnp')
     opath = os.path.join(d, name + '.t4')
@@ -106,15 +106,15 @@ def run(deck_text, options=(), name='deck', encoding=None, keep=False):
         os.remove(opath)
     out = io.StringIO()
     saved_argv = sys.argv
-    sys.argv = ['t4_geom_convert']
+    # the real command-line entry point: main() reads sys.argv
+    sys.argv = ['t4_geom_convert', '-o', opath, ipath] + list(options)
     res = Result(kind='ok', warnings=[])
     try:
         with warnings.catch_warnings(record=True) as wrec:
             warnings.simplefilter('always')
             with contextlib.redirect_stdout(out), contextlib.redirect_stderr(out):
                 try:
-                    args = parse_args(['-o', opath, ipath] + list(options))
-                    conversion(args)
+                    t4main.main()
                 except SystemExit as e:
                     if e.code not in (0, None):
                         res.kind = 'error'
